@@ -577,6 +577,8 @@ func main() {
 	merge := flag.Bool("merge", false, "merge into an existing overlay file")
 	mapRange := flag.Bool("maprange", false, "also rewrite range-over-map into vs.MapKeys")
 	tags := flag.String("tags", "", "build tags for loading")
+	pkgname := flag.String("pkgname", "", "rename the package clause of rewritten files (used with -mapto)")
+	mapto := flag.String("mapto", "", "overlay the rewritten files into this (virtual) directory instead of over their sources; all files of the package are emitted")
 	flag.Parse()
 	if *dir == "" {
 		*dir = *repo
@@ -616,9 +618,20 @@ func main() {
 			if strings.HasSuffix(name, "_test.go") {
 				continue
 			}
+			if *pkgname != "" {
+				f.Name.Name = *pkgname
+			}
 			src, changed := r.file(f)
 			if !changed {
-				continue
+				if *mapto == "" {
+					continue
+				}
+				var buf bytes.Buffer
+				if err := format.Node(&buf, p.Fset, f); err != nil {
+					fmt.Fprintln(os.Stderr, "TOOL-ERROR rewrite:", err)
+					os.Exit(2)
+				}
+				src = buf.Bytes()
 			}
 			rel, err := filepath.Rel(*repo, name)
 			if err != nil || strings.HasPrefix(rel, "..") {
@@ -630,7 +643,11 @@ func main() {
 				fmt.Fprintln(os.Stderr, "TOOL-ERROR rewrite:", err)
 				os.Exit(2)
 			}
-			ov.Replace[name] = dst
+			if *mapto != "" {
+				ov.Replace[filepath.Join(*mapto, filepath.Base(name))] = dst
+			} else {
+				ov.Replace[name] = dst
+			}
 		}
 		for _, e := range r.errs {
 			fmt.Fprintln(os.Stderr, "TOOL-ERROR rewrite:", e)
